@@ -191,6 +191,23 @@ def period_of(prog, t, var, depth=0):
                     return ("conflict", found, r)
                 found = r
         return found
+    base = t[1] if t[0] == "sub" else None
+    while base is not None and base[0] in ("phi", "ifexp", "setitem"):
+        base = base[2] if base[0] in ("phi", "ifexp") and base[2][0] in ("setitem", "carried", "loopout", "phi") else \
+            base[3] if base[0] in ("phi", "ifexp") else base[1]
+    if t[0] == "sub" and base is not None and base[0] in ("carried", "loopout") and t[2][0] != "const":
+        # a loop-carried container (memo dict) indexed by a key: the element may stem from another iteration
+        lp = prog.loops.get(base[1])
+        nxt = lp.next.get(base[2]) if lp else None
+        if lp is not None and nxt is not None and any(s[0] == "setitem" for s in walk(nxt)):
+            key = t[2]
+            items = [s for s in walk(nxt) if s[0] == "setitem"]
+            period_specific = any(
+                callee_name(c) in FACTORY_PERIOD_KW and affine(kw(c, FACTORY_PERIOD_KW[callee_name(c)]) or ("const", None), lp.target) == (1, 0)
+                for it in items for c in walk(it[3]) if c[0] == "call")
+            injective = affine(key, var) is not None and affine(key, var)[0] != 0
+            if period_specific and not injective and (key[0] in ("cmp", "const", "boolop") or var not in set(walk(key))):
+                return ("shared", key)
     if t[0] == "sub":
         # L[index]
         try:
@@ -210,6 +227,8 @@ def _fmt(p):
         return "period-independent"
     if p[0] == "conflict":
         return f"conflicting periods {p[1]} vs {p[2]}"
+    if p[0] == "shared":
+        return f"an object shared between periods (keyed by {show(p[1])[:40]})"
     a, b = p
     return ("t" if a == 1 else f"{a}*t") + (f"{b:+d}" if b else "")
 
@@ -313,6 +332,12 @@ def per_rules(ctx: Ctx):
                    lhs=seq.describe(), nontrivial=False)
             return obj
         p = period_of(prog, obj, T)
+        if p is not None and p[0] == "shared":
+            ctx.ob(key, False, prog.where(raw),
+                   f"{kwname}: the per-period object is looked up in a container keyed by {show(p[1])[:60]}, which takes "
+                   "the same value for different periods, although the object is built from period-specific inputs: "
+                   "several periods share the object of one period", lhs=seq.describe(), rhs=f"t{want:+d}" if want else "t")
+            return obj
         ok = p == (1, want)
         ctx.ob(key, ok if p is not None else None, prog.where(raw),
                f"{kwname} used in period t belongs to period {_fmt(p)} -- required t{want:+d}: {why}"
